@@ -11,7 +11,7 @@ u64, u128, [u64;4], [u64;8]) and every len in 0..=4096 plus a few large ones, fo
 len()/as_slice().len() == len, as_slice().as_ptr() % 64 == 0, every byte zero, allocated_size() >= len and \
 allocated_size()*size_of::<T>() a multiple of 64, a position pattern written through as_mut_slice is read back \
 through as_slice and Deref, copy_from_slice round trip, as_mut_ptr == as_slice().as_ptr(), clone is deep (same \
-len/contents/alignment, distinct storage, mutating either side leaves the other unchanged), and so is \
+len/contents/alignment, distinct storage, mutating either side — through as_mut_slice and through as_mut_ptr — leaves the other unchanged), and so is \
 Clone::clone_from into targets of length 0, len/2, len, len+1, 2*len+65; the allocator block the storage lies in (harness allocator registry) \
 covers allocated_size()*size_of::<T>() bytes from the view's start; a buffer filled up to its capacity through as_mut_ptr and dropped \
 leaves nothing behind in the next buffer of the same chunk count. Plus, per type, lengths of 2^63 bytes and \
@@ -257,6 +257,45 @@ fn protocol<X: BElem>(len: usize) -> Verdict {
                 format!("original[{i}] unchanged after mutating the clone"),
                 format!("{:?}", buf.as_slice()[i]),
             );
+        }
+        // the same two directions through the raw pointer (`as_mut_ptr`), the write path that bypasses the slice views
+        if len > 0 {
+            let pc = cl.as_mut_ptr();
+            for i in 0..len {
+                unsafe { pc.add(i).write(X::pat(i, 7)) };
+            }
+            if let Some(i) = (0..len).find(|&i| buf.as_slice()[i] != X::pat(i, 1)) {
+                return bad(
+                    "clone",
+                    format!("original[{i}] unchanged after writing the clone through as_mut_ptr()"),
+                    format!("{:?}", buf.as_slice()[i]),
+                );
+            }
+            let pb = buf.as_mut_ptr();
+            for i in 0..len {
+                unsafe { pb.add(i).write(X::pat(i, 8)) };
+            }
+            if let Some(i) = (0..len).find(|&i| cl.as_slice()[i] != X::pat(i, 7)) {
+                return bad(
+                    "clone",
+                    format!("clone[{i}] unchanged after writing the original through as_mut_ptr()"),
+                    format!("{:?}", cl.as_slice()[i]),
+                );
+            }
+            if let Some(i) = (0..len).find(|&i| buf.as_slice()[i] != X::pat(i, 8)) {
+                return bad(
+                    "readback",
+                    format!("as_slice()[{i}] reads what was written through as_mut_ptr()"),
+                    format!("{:?}", buf.as_slice()[i]),
+                );
+            }
+            // restore what the rest of the protocol expects
+            for (i, x) in cl.as_mut_slice().iter_mut().enumerate() {
+                *x = X::pat(i, 2);
+            }
+            for (i, x) in buf.as_mut_slice().iter_mut().enumerate() {
+                *x = X::pat(i, 1);
+            }
         }
         // copy_from_slice on the original, clone unchanged
         let fresh: Vec<X> = (0..len).map(|i| X::pat(i, 3)).collect();
